@@ -344,6 +344,8 @@ type Rig struct {
 	AppAddrs map[string]string
 	Relay    *Relay
 	closers  []func()
+	// ServerAddr is host:port of the server endpoint (tcp / udp carriers)
+	ServerAddr string
 }
 
 func freePort(network string) int {
@@ -438,6 +440,14 @@ func NewRig(o RigOpts) (*Rig, error) {
 		ups = &upstream.Dns{Address: addr.MustParseAddress(fmt.Sprintf("dns://example.org?direct=false&dns=127.0.0.1:%d", p))}
 	default:
 		return nil, fmt.Errorf("unknown carrier %q", o.Carrier)
+	}
+	switch s := srv.(type) {
+	case *server.SocketServer:
+		r.ServerAddr = s.Address.Host
+	case *server.HttpServer:
+		r.ServerAddr = s.Address.Host
+	case *server.PacketServer:
+		r.ServerAddr = s.Address.Host
 	}
 	r.srv = &serverCmd.Command{Channels: channels, Servers: server.Servers{srv}}
 	if err := r.srv.Startup(r.intr); err != nil {
